@@ -62,7 +62,8 @@ def run(ctx):
             report.sample({"fn": rp.qname, "ok_return": "bb%d" % bi, "entailed": "cursor_out = cursor_in + 10 + RDLENGTH"})
     report.floor("Ok returns of RData::parse", n_ok, 3)
     # R2: slices handed to the typed parsers
-    typed = [e for e in an.events if e.get("callee") and e["callee"]["name"] in ("parse_rdata", "parse") and e["callee"]["crate"] == "simple_dns"]
+    typed_names = {"parse_rdata", "parse"} | set(prog.bodies[i].name for i in prog.renamed.values() if i in prog.bodies)
+    typed = [e for e in an.events if e.get("callee") and e["callee"]["name"] in typed_names and e["callee"]["crate"] == "simple_dns"]
     report.floor("typed-parser calls in RData::parse", len(typed), 2)
     for e in typed:
         report.count()
